@@ -1002,7 +1002,7 @@ PROPS["C04"] = dict(
 PROPS["C07"] = dict(
     lean_targets=["SJ.Props.C07", "SJ.Audit.C07"],
     configs=dict(quick=["fr"], thorough=["fr", "frap", "d"]),
-    gen_keys=["lexical.", "Lexical"],
+    gen_keys=["lexical.", "Lexical", "LexMath"],
     rule="number literals of the property's quantifier, each into f64 (from_str, from_slice, a two-element array through a chunked "
          "reader, Value::as_f64) and into f32 (str, slice, reader): f64 values sampled across every binary exponent (shortest {:e}, "
          "shortest {}, 17 significant digits; thorough also 15 and 20), every power of two and its neighbours, every power of ten "
@@ -1014,13 +1014,31 @@ PROPS["C07"] = dict(
          "and fraction digit loops); random 1-40 digit mantissas with exponents in +-400; spellings that steer into lexical's fast, "
          "moderate (extended-precision) and big-integer paths; print -> parse of f64/f32 sampled across every exponent (f64pr/f32pr). "
          "Thorough: all 2^32 f32 bit patterns print -> parse inside the harness (f32all), also in the default build. "
-         "Non-trivial = literal longer than one byte; distinct = distinct lines.",
+         "Limb level (op lm, the crate's own src/lexical compiled into the harness): every function of lexical/math.rs - "
+         "scalar add/sub/mul on all pairs of 15 edge limbs and random limbs; small iadd_impl/isub_impl at every start index of "
+         "0-7-limb vectors of eight kinds (random, all ones, all ones below a random top, zeros below the top, low half zero, "
+         "high half ones, edge limbs, zero top), carries rippling over 20/40 limbs; imul/mul/normalize/leading_zeros/bit_length/"
+         "nonzero on random vectors of 0-19 limbs; ishl_bits by every count 0-63, ishl by multiples of 64 +-1 and random counts "
+         "to 1400, ishl_limbs; hi64 (and u64_to_hi64_1/2) of 1-5 limbs with 0/1/31/32/63 leading zeros, with and without sticky "
+         "bits in the second and in lower limbs, unnormalised inputs; compare/less/greater_equal on equal, one-limb-different and "
+         "random normalised pairs and on unnormalised ones; large iadd_impl (every start, past the end), add, isub (ordered and "
+         "unordered); long_mul, large::imul, karatsuba_mul / karatsuba_uneven_mul / karatsuba_mul_fwd on 64 length pairs around "
+         "KARATSUBA_CUTOFF and 2*CUTOFF (x.len in {1, 2, y/2-1, y/2, y/2+1, y-1, y, y+1}; thorough: up to 160 limbs) x five "
+         "content kinds, low-half-zero and empty operands, the kernel-checked panic witnesses; imul_pow5/imul_pow10 on both "
+         "routes and at the frontier of the route choice; the trait Math over the unmodified sources; bhcomp.rs on limb vectors "
+         "(parse_mantissa, large_atof, small_atof, bhcomp on exact midpoints, perturbed, extended beyond MAX_DIGITS, cut, in three "
+         "integer/fraction splits). Non-trivial = literal longer than one byte (every lm case); distinct = distinct lines.",
     trusted_base=[
         "Lean 4.33 kernel; axioms propext, Classical.choice, Quot.sound only (checked by #print axioms on every listed theorem)",
         "tools/extract.py gen_lexical (regex translator: cached powers, small/large power tables, per-type float constants, and the "
         "shapes of the error/rounding expressions) and the Rust harness + sjdriver correspondence run (differential testing, bit for bit)",
         "hand-written transcription of src/lexical/* and of the float_roundtrip integration of de.rs (Model.Lexical), tied to the crate "
-        "by the correspondence run; limb-level big-integer arithmetic of lexical/math.rs abstracted by Nat",
+        "by the correspondence run; the limb-level big-integer arithmetic of lexical/math.rs is no longer abstracted: Model.LexMath "
+        "transcribes it (64-bit limbs; every function's shape is re-checked by extract.py gen_lexmath each run), the theorems "
+        "c07_limbs_* prove that it refines the Nat-level model, and the crate's own math.rs / bhcomp.rs (compiled into the harness by "
+        "harness/build.rs, once unmodified and once with visibility keywords opened) is run against it op by op",
+        "the limb width: the model is for fast_arithmetic=\"64\" (every 64-bit target; checked against the compiled Limb::BITS by op "
+        "`lm bits`); the 32-bit-limb configuration (hi64 for u32 limbs, large_powers32) is not modelled",
         "IEEE-754 conformance of the hardware multiply/divide/int-to-float cast used by lexical's fast path; rustc's conversion of the "
         "float literals 1.0..1e22; serde's f32/f64 visitors (`as` casts)",
     ],
@@ -1037,7 +1055,7 @@ PROPS["C07"] = dict(
         "c07_all_sources links the Value target of the byte machine (all three sources, nested values) to deFloatRoundtrip; the typed "
         "f64 target uses the same Model.Num.convertRoundtrip (Typed.parserNumber), the typed f32 target (Typed.f32Roundtrip) is not "
         "linked to deFloatRoundtrip true by a theorem (carried by the correspondence runs of C07 and of the typed checks)",
-        "limb-level arithmetic of lexical/math.rs is abstracted by Nat in Model.Lexical (a limb-level model is a separate piece of work)",
+        "the 32-bit-limb configuration of lexical/math.rs is not modelled (c07_limbs_* are about 64-bit limbs, every 64-bit target)",
     ],
     technique="Lean 4: extracted lexical tables proved against exact powers by kernel evaluation; transcription of lexical and its de.rs "
               "integration run bit for bit against the crate; independent exact-rational round-to-nearest-even oracle evaluated on the "
@@ -1058,12 +1076,20 @@ PROPS["C07"] = dict(
                "floor((a*b+2^63)/2^64), the booked error count strictly bounds the true error of the extended product - true "
                "only with the repaired error_scale() booking -, an accepted estimate rounds like the exact value, a rejected one "
                "leaves the exact value in the neighbourhood bhcomp assumes); c07_bhcomp_exact (Bigint as Nat; MAX_DIGITS "
-               "truncation argument 2^54*5^1075 < 10^768; sticky digit only for a non-zero tail); c07_parse_exact. The "
-               "transcription is run bit for bit against the crate, and the independent exact-rational oracle is evaluated on the "
+               "truncation argument 2^54*5^1075 < 10^768; sticky digit only for a non-zero tail); c07_parse_exact. "
+               "The Bigint abstraction is closed: "
+               "c07_limbs_scalar/small/isub/compare/add/long_mul/karatsuba/hi64/pow (every function of lexical/math.rs on limb vectors "
+               "refines +, -, *, <<, comparison, top-64-bits-with-sticky on the numbers denoted, keeps limbs limbs and normalised "
+               "vectors normalised; Karatsuba = schoolbook = product wherever it returns; c07_karatsuba_panics: it does not always "
+               "return - two kernel-checked witnesses replayed on the crate, in code unreachable from serde_json's API), "
+               "c07_limbs_refine_nat (parse_mantissa / large_atof / small_atof / bhcomp on limb vectors = the Nat-level model that "
+               "c07_bhcomp_exact is about), c07_limbs_total (no panic for -2048 < scaled_exponent < 1024) and their composition "
+               "c07_bhcomp_limbs_exact (bhcomp.rs run on limb vectors returns the correctly rounded value). "
+               "The transcription is run bit for bit against the crate, and the independent exact-rational oracle is evaluated on the "
                "crate's output, on 81k (quick) / 1.4M (thorough) constructed literals incl. exact midpoints up to 770 digits and "
                "all 2^32 f32 patterns print->parse.",
     level_note="Trusted: Lean kernel + 3 standard axioms; extract.py; harness/driver; Model.Lexical transcription validated bit for bit; "
-               "math.rs limb arithmetic abstracted by Nat; the named hypothesis RyuShortest about the external printer (only for "
+               "math.rs limb arithmetic verified (c07_limbs_*: Model.LexMath refines the Nat-level model; 64-bit limbs only); the named hypothesis RyuShortest about the external printer (only for "
                "c07_roundtrip / c04_value_fr). The three findings of the pinned tree (C07-zero-tail, C07-f32-negint, "
                "C07-moderate-truncated) are fixed in /repo (1024dba, be03444, eca65d4); c07_moderate_path_sound and c07_correct are "
                "theorems about the repaired code (each is false of the pinned code on the finding's witness).",
